@@ -39,7 +39,7 @@ fn setup(ctx: &mut Ctx) {
 }
 
 fn strata(t: Tier) -> Vec<Stratum> {
-    vec![st("single-fault-enumeration", scale(t, 2_400, 160_000, 2)), st("multi-fault-schedules", scale(t, 4_000, 300_000, 2))]
+    vec![st("single-fault-enumeration", scale(t, 192_000, 1_920_000, 2)), st("multi-fault-schedules", scale(t, 320_000, 3_200_000, 2))]
 }
 
 struct Run {
